@@ -396,6 +396,43 @@ def rngstep(route: int, d0: int, d1: int, ss1: bool, st1: int, ss2: bool, st2: i
 rngstep.ranges = lambda consts: dict(d0=(-2, 2), d1=(-2, 2), st1=(-1, 1), st2=(-1, 1), lo2=(-2, 2), hi2=(-2, 2))
 
 
+def selnone(typ: int, route: int, s1n: bool, n1: bool, s2n: bool, n2: bool, s2d: bool) -> None:
+    """allow_None of a redeclared Selector / ListSelector / ObjectSelector is recomputed from the class's own declaration,
+    never inherited (types whose constructor treats allow_None specially)."""
+    typ = pick(typ, 0, 2)
+    T = [param.Selector, param.ListSelector, param.ObjectSelector][typ]
+    dflt = [1] if typ == 1 else 1
+    k1 = {'objects': [1, 2], 'default': dflt}
+    if pickbool(s1n):
+        k1['allow_None'] = pickbool(n1)
+    k2 = {}
+    if pickbool(s2n):
+        k2['allow_None'] = pickbool(n2)
+    if pickbool(s2d):
+        k2['default'] = [2] if typ == 1 else 2
+
+    class A(param.Parameterized):
+        s = T(**k1)
+    if route == 0:
+        class B(A):
+            s = T(**k2)
+    else:
+        class B(A):
+            pass
+        B.param.add_parameter('s', T(**k2))
+    own = bool(k2.get('allow_None', False))
+    info = {'selector_allow_None': True, 'type': T.__name__, 'route': route, 'k1': repr(k1), 'k2': repr(k2)}
+    check('C11.allow_None_recomputed', bool(B.param.s.allow_None) == own, dict(info, got=B.param.s.allow_None, exp=own))
+    b = B()
+    try:
+        b.s = None
+        acc = True
+    except ValueError:
+        acc = False
+    check('C11.allow_None_recomputed', acc == own, dict(info, none_accepted=acc, exp=own))
+    check('C11.slot_nearest', list(B.param.s.objects) == [1, 2], dict(info, attr='objects', got=repr(list(B.param.s.objects))))
+
+
 def shards(tier):
     out = []
     q = tier == 'quick'
@@ -430,6 +467,8 @@ def shards(tier):
                                 c.update(s1b=False, lo1=0, hi1=0)
                         out.append(dict(name='sh%d_tc%d_r%d_%d%d' % (shape, tc, route, s2d, s2b), module='harness.c11', fn='prog',
                                         consts=c, budget_s=60 if q else 600))
+    for route in (0, 1):
+        out.append(dict(name='selnone_r%d' % route, module='harness.c11', fn='selnone', consts=dict(route=route), budget_s=60 if q else 300))
     for route in (0, 1):
         out.append(dict(name='rngstep_r%d' % route, module='harness.c11', fn='rngstep', consts=dict(route=route), budget_s=60 if q else 300))
     for shape in (0, 1):
